@@ -3,7 +3,7 @@
    tm_layout (Spec/PusSpec.v): CCSDS primary header (type TM, secondary header present,
    unsegmented, data length = total - 7), [0x20+time-ref; service; subservice; msg counter hi; lo;
    destination hi; lo], timestamp, source data, CRC-16/CCITT-FALSE. *)
-From Coq Require Import ZArith List.
+From Coq Require Import ZArith List Lia.
 From SP Require Import Base.Result Base.Bytes Base.Crc16 Model.SpacePacket Spec.SpacePacketSpec
   Model.PusTc Model.PusTm Spec.PusSpec Proofs.PusTmProofs.
 Import ListNotations.
@@ -62,7 +62,13 @@ Theorem C03_new_refuses : forall service subservice apid seq msgcnt ref dest ver
 Proof. exact tm_new_refuses. Qed.
 Print Assumptions C03_new_refuses.
 
-(* the service-17 wrapper is PusTm with service 17 *)
+(* the service-17 wrapper is PusTm with service 17.
+   DEFINITIONAL: this is a modelling assumption, not a derived fact.  Service17Tm
+   (spacepackets/ecss/pus_17_test.py) holds a PusTm and delegates pack / unpack / the field
+   accessors to it; the model therefore DEFINES srv17_new / srv17_pack / srv17_unpack as the PusTm
+   functions with service 17, and the theorem below only unfolds those definitions.  That the real
+   wrapper behaves like that is established by the correspondence check (family 6, the s17 ops),
+   not by this theorem. *)
 Theorem C03_srv17_is_tm : forall apid subservice stamp ssc src version ref dest,
   srv17_new apid subservice stamp ssc src version ref dest =
     tm_new 17 subservice stamp src apid ssc 0 ref dest version /\
@@ -73,3 +79,17 @@ Print Assumptions C03_srv17_is_tm.
 Example C03_args_valid_inhabited :
   tm_args_valid 17 2 2047 16383 65535 15 65535 7 [1; 2; 3; 4; 5; 6; 7] [9; 255].
 Proof. exact tm_valid_example. Qed.
+
+(* non-vacuity of C03_rejects_small_declared_length: 08 dd cb 3d 00 06 2c 48 09 2f 85 a4 2f with
+   timestamp length 0 -- length field 6 (declared packet length 13 < 15); refused with ValueError *)
+Example C03_small_declared_length_inhabited :
+  let d := [8; 221; 203; 61; 0; 6; 44; 72; 9; 47; 133; 164; 47] in
+  wf_bytes d /\ 0 <= 0 /\ (6 <= length d)%nat /\
+  (forall h, sph_unpack d = Ok h -> dlen h + 7 < 6 + 7 + 0 + 2) /\
+  tm_unpack d 0 = Err EValue /\ documented EValue = true.
+Proof.
+  cbv zeta. split; [repeat constructor; lia|]. split; [lia|].
+  split; [cbn; lia|].
+  split; [|split; [vm_compute; reflexivity|reflexivity]].
+  intros h E. vm_compute in E. injection E as <-. vm_compute. reflexivity.
+Qed.
